@@ -184,6 +184,7 @@ STATE_SAMPLE = [SA(0), SB(0), SP(0, 0), SA2(0)]
 STYPE: list[int | None] = [0, 1, None, 0]  # call-state class of each method's streams (0 = CA, 1 = CB)
 DECLARES = [[True, False], [False, True], [False, False], [True, False]]
 PRODUCER = [False, False, True, False]
+CALL_STATE_CODES = {1, 2, 4}  # row codes of the methods whose output carries the tag of the bound call state
 
 # identities: index -> (domain, principal) | None (anonymous). 0/1 collide on the cache key, 6/7 on key *and* AAD.
 IDENTS: list[tuple[str, str] | None] = [
@@ -377,9 +378,12 @@ JUNK_KINDS = ["garbage", "notb64", "empty", "flip", "trunc", "swap", "foreign"]
 class Deployment:
     """Real workers + reference instance executing a symbolic history step by step."""
 
-    def __init__(self, pool: Pool, clock: Clock, ttl: int, caps: list[int]) -> None:
+    def __init__(self, pool: Pool, clock: Clock, ttl: int, caps: list[int], fresh_ref: bool = False) -> None:
         self.pool, self.clock, self.ttl, self.caps = pool, clock, ttl, caps
         self.workers = [pool.get(c, ttl, i) for i, c in enumerate(caps)]
+        # the reference: pooled instance whose cache is cleared before every request, or (fresh_ref) a newly built
+        # instance with the default capacity per request
+        self.fresh_ref = fresh_ref
         self.ref = pool.get(3, ttl, "ref")
         self.foreign = pool.get(2, ttl, "foreign", OTHER_KEY)
         clock.ticks = 0
@@ -484,6 +488,9 @@ class Deployment:
         before = [k for k in inst._call_state_cache._entries]
         warm = decode(self._post(client, path, body, st["id"]))
         # the reference: an instance with an empty cache, same request, same clock
+        if self.fresh_ref:
+            self.pool.apps.pop((4096, self.ttl, "fresh", KEY), None)
+            self.ref = self.pool.get(4096, self.ttl, "fresh")
         self.ref[1]._call_state_cache.clear()
         cold = decode(self._post(self.ref[0], path, body, st["id"]))
         conf = None
@@ -559,7 +566,8 @@ def evaluate(ctx: Any, dep: Deployment, decodes: list[list[bool]], tags: tuple[s
 
     case = dep.case()
     n_cont = sum(1 for s in dep.steps if s["t"] == "cont")
-    ctx.case(case, nontrivial=dep.hits > 0, tags=tags + (f"workers:{len(dep.caps)}", f"ttl:{dep.ttl}", f"hits:{min(dep.hits, 3)}"))
+    ctx.case(case, nontrivial=dep.hits > 0, tags=tags + (f"workers:{len(dep.caps)}", f"ttl:{dep.ttl}", f"hits:{min(dep.hits, 3)}",
+                                                         "ref:fresh-instance" if dep.fresh_ref else "ref:cleared-instance"))
     # ---- O
     for st, ob in zip(dep.steps, dep.obs):
         if st["t"] != "cont" or ob is None:
@@ -583,8 +591,8 @@ def evaluate(ctx: Any, dep: Deployment, decodes: list[list[bool]], tags: tuple[s
                          f"non-echoing request answered {outcome(warm)}; cold answers {outcome(cold)} to it and {outcome(ob['conf'])} "
                          f"to the conforming request; step {st}")
         # no cross-identity: the call state used was minted for a caller with the same AAD
-        if ob["served"] and warm["rows"]:
-            tag = warm["rows"][0] // 10_000 % 100
+        if ob["served"] and warm["rows"] and warm["rows"][0] // 1_000_000 in CALL_STATE_CODES:
+            tag = warm["rows"][0] // 10_000 % 100  # the tag of the *call state* the method ran on
             if tag < len(dep.calls):
                 if _compute_aad(_auth(dep.calls[tag]["owner"])) != _compute_aad(_auth(st["id"])):
                     ctx.fail(case, "C14:cross-identity-call-state",
@@ -612,7 +620,7 @@ def evaluate(ctx: Any, dep: Deployment, decodes: list[list[bool]], tags: tuple[s
             if _model_cat(mo[which]) != _real_cat(real):
                 ctx.mismatch({"case": case, "step": i, "which": which}, mo[which], outcome(real), "outcome: model vs implementation")
                 return
-            if "served" in mo[which] and real["rows"]:
+            if "served" in mo[which] and real["rows"] and real["rows"][0] // 1_000_000 in CALL_STATE_CODES:
                 tag = real["rows"][0] // 10_000 % 100
                 if tag != mo[which]["served"]["content"] or (ob["named_cid"] is not None and mo[which]["served"]["cid"] != ob["named_cid"]):
                     ctx.mismatch({"case": case, "step": i, "which": which}, mo[which], outcome(real), "served call: model vs implementation")
@@ -628,8 +636,8 @@ def evaluate(ctx: Any, dep: Deployment, decodes: list[list[bool]], tags: tuple[s
 # ------------------------------------------------------------------------------------------ generators
 
 
-def execute(pool: Pool, clock: Clock, ttl: int, caps: list[int], steps: list[dict[str, Any]]) -> Deployment:
-    dep = Deployment(pool, clock, ttl, caps)
+def execute(pool: Pool, clock: Clock, ttl: int, caps: list[int], steps: list[dict[str, Any]], fresh_ref: bool = False) -> Deployment:
+    dep = Deployment(pool, clock, ttl, caps, fresh_ref)
     for st in steps:
         dep.do(st)
     return dep
@@ -650,7 +658,7 @@ def _tick(rng: Any, ttl: int) -> int:
 def generate(rng: Any, pool: Pool, clock: Clock, max_steps: int) -> Deployment:
     ttl = rng.choice([0, 2, 3, 3, 10])
     caps = [rng.choice([0, 1, 1, 2, 2, 3]) for _ in range(rng.choice([2, 3, 3]))]
-    dep = Deployment(pool, clock, ttl, caps)
+    dep = Deployment(pool, clock, ttl, caps, fresh_ref=rng.random() < 0.03)
     idents = rng.sample(range(len(IDENTS)), rng.choice([1, 2, 3]))
     if rng.random() < 0.25:
         idents = [0, 1] + idents[:1]  # the two identities that collide on the cache key
@@ -789,10 +797,10 @@ def run(ctx: Any) -> None:
             ctx.note("extracted_shape", ctx.driver.call("C14.shape", {}))
         _model_selfcheck(ctx)
         for name, ttl, caps, steps in corpus():
-            dep = execute(pool, clock, ttl, caps, steps)
+            dep = execute(pool, clock, ttl, caps, steps, fresh_ref=True)
             evaluate(ctx, dep, decodes, tags=("src:corpus",))
             ctx.tag(f"corpus:{name}")
-        n = ctx.budget(900, 24000)
+        n = ctx.budget(600, 9000)
         max_steps = 25 if (ctx.tier == "thorough" or ctx.deep) else 12
         for _ in range(n):
             dep = generate(ctx.rng, pool, clock, max_steps)
@@ -825,5 +833,5 @@ def replay(ctx: Any, case: dict[str, Any]) -> None:
         if "identity" in case:
             _model_selfcheck(ctx)
             return
-        dep = execute(pool, clock, case["ttl"], list(case["caps"]), case["steps"])
+        dep = execute(pool, clock, case["ttl"], list(case["caps"]), case["steps"], fresh_ref=True)
         evaluate(ctx, dep, decodes, tags=("src:replay",))
